@@ -2,6 +2,7 @@ package main
 
 import (
 	"fmt"
+	"go/token"
 	"strings"
 
 	"golang.org/x/tools/go/ssa"
@@ -23,6 +24,25 @@ func runC17(c *Ctx) {
 
 	ruleErrPassthrough(c)
 	ruleNoSMTPErrorMutation(c)
+	// the error reported for a failed chunk is the one the pipe copy returned — the backend's own error comes back that
+	// way (r.CloseWithError) — and "unexpected EOF" stands in only when the copy returned none
+	R.Rule("R-chunk-error-kept", "E3 guard facts", "handleBdat replaces the chunk copy's error by io.ErrUnexpectedEOF only where that error is nil", 1)
+	if f := c.A.Func("(*Conn).handleBdat"); f != nil {
+		nSub := 0
+		allInstrs(f, func(in ssa.Instruction) {
+			u, ok := in.(*ssa.UnOp)
+			if !ok || u.Op != token.MUL {
+				return
+			}
+			g, ok := u.X.(*ssa.Global)
+			if !ok || g.Name() != "ErrUnexpectedEOF" {
+				return
+			}
+			nSub++
+			c.obFactMatch("substitute error only for a nil copy error", in, `^io\.Copy(N)?\(Conn\.bdatPipe,.*\)#1 == nil$`, "io.ErrUnexpectedEOF replaces the chunk copy's error although that error may be set: a backend's plain error (returned through the pipe) is reported as \"unexpected EOF\"")
+		})
+		R.Ob("(*Conn).handleBdat/short-copy substitution found", c.P.Pos(f.Pos()), nSub >= 1, "no use of io.ErrUnexpectedEOF in handleBdat")
+	}
 	R.Rule("R-verdict-flow", "E4 value flow", "the reply to DATA/BDAT LAST is computed by dataErrorToStatus from the backend's own result: no handler replaces the backend's error on the way", 4)
 	ruleVerdictSources(c)
 
